@@ -223,6 +223,9 @@ fn nerr(n: Point, deg: f64) -> f64 {
     (n.x as f64 - ux).abs().max((n.y as f64 - uy).abs())
 }
 
+/// THE TRIG HYPOTHESIS, tested: this function is the executable counterpart of `trig_hypothesis ps start sweep eps`
+/// and `rays_proper ps` of coq/Proofs/Sectorangle.v (with f64 sin/cos in place of the real functions; ps = the hook's
+/// value for (start, sweep)).  Every clause of the Coq definition has its test below, in the same order.
 /// the trig hypothesis for one (start, sweep) in degrees (f32 values as the user passes them):
 /// op and both normals against f64. Returns the largest component error or a failure text.
 fn trig_check(start: f32, sweep: f32, eps: f64) -> Result<f64, String> {
@@ -243,14 +246,23 @@ fn trig_check(start: f32, sweep: f32, eps: f64) -> Result<f64, String> {
     }
     let want_op = if w64.abs() >= 180.0 { 1 } else { 0 };
     // within f32 rounding of 180 either operation describes the same half plane
-    if op != want_op && (w64.abs() - 180.0).abs() > 0.001 {
+    if op != want_op && (w64.abs() < 179.999 || w64.abs() >= 180.001) {
         return Err(format!("class=wrong_operation start={} sweep={} op={} expected={}", start, sweep, op, want_op));
     }
     // the two rays of an Intersection sector must be in proper position (Coq: K18_tiny_sweep_opposite_side = false)
     // as soon as the sweep exceeds the resolution of the normals (whole degrees in the fixed_point build)
     let (min_sweep, max_sweep) = if cfg!(feature = "fixed_point") { (1.01, 178.99) } else { (0.12, 179.88) };
-    if op == 0 && w64.abs() >= min_sweep && w64.abs() < max_sweep && (r.x as i64 * l.y as i64 - r.y as i64 * l.x as i64) <= 0 {
+    let det_rl = r.x as i64 * l.y as i64 - r.y as i64 * l.x as i64;
+    if op == 0 && w64.abs() >= min_sweep && w64.abs() < max_sweep && det_rl <= 0 {
         return Err(format!("class=degenerate_cone start={} sweep={} left=({},{}) right=({},{})", start, sweep, l.x, l.y, r.x, r.y));
+    }
+    // Union (Coq: rays_proper): the complement cone runs from the left ray counter-clockwise to the right ray,
+    // det(left, right) > 0, or both normals coincide (nothing is rejected)
+    if op == 1 && w64.abs() >= 180.0 + min_sweep && w64.abs() <= 360.0 - min_sweep && -det_rl <= 0 {
+        return Err(format!("class=degenerate_complement_cone start={} sweep={} left=({},{}) right=({},{})", start, sweep, l.x, l.y, r.x, r.y));
+    }
+    if op == 1 && w64.abs() > 360.0 - min_sweep && !(-det_rl > 0 || l == r) {
+        return Err(format!("class=degenerate_complement_cone start={} sweep={} left=({},{}) right=({},{})", start, sweep, l.x, l.y, r.x, r.y));
     }
     let (right_deg, left_deg) = if w64 < 0.0 { (s64 + w64, s64) } else { (s64, s64 + w64) };
     let e = nerr(r, right_deg).max(nerr(l, left_deg));
@@ -366,6 +378,45 @@ pub fn search(suite: &str, a: &[&str]) -> Option<String> {
                 worst = worst.max(e);
             }
             format!("OK {} worst={:.3}", hi - lo, worst)
+        }
+        // p_trig_stride <lo> <hi> <stride> <offset> <eps_milli>: with_angle for every stride-th f32 bit pattern
+        // lo+offset, lo+offset+stride, ... < hi (value in degrees): a stratified exhaustive slice
+        "p_trig_stride" => {
+            let (lo, hi) = (a[0].parse::<u32>().unwrap(), a[1].parse::<u32>().unwrap());
+            let (stride, off, eps) = (a[2].parse::<u32>().unwrap(), a[3].parse::<u32>().unwrap(), i(a[4]) as f64 / 1000.0);
+            let mut worst = 0f64;
+            let mut n = 0u32;
+            let mut b = lo + off % stride;
+            while b < hi {
+                let deg = f32::from_bits(b);
+                let nv = normal_of(deg.deg());
+                let e = nerr(nv, deg as f64);
+                if e > eps {
+                    return Some(format!("FAIL class=normal_error angle={} (bits {}) normal=({},{}) err={:.3} eps={}", deg, b, nv.x, nv.y, e, eps));
+                }
+                worst = worst.max(e);
+                n += 1;
+                b += stride;
+            }
+            format!("OK {} worst_eps={:.3} (hypothesis eps {})", n, worst, eps)
+        }
+        // p_sec_far x y d A S: probes far outside the bounding box but inside the i32-exact range of the distance
+        // computation (|2p - center_2x| <= 32767 per component: Coq probe_ok) are rejected by Sector::contains
+        "p_sec_far" => {
+            let (tl, d) = (pt(a[0], a[1]), u(a[2]));
+            let sec = Sector::new(tl, d, ang(a[3]), ang(a[4]));
+            let c = sec.center();
+            let mut n = 0;
+            for &k in &[200i32, 1000, 8191, 16000, 16383 - d as i32] {
+                for (dx, dy) in [(k, 0), (-k, 0), (0, k), (0, -k), (k, k), (-k, k), (k, -k), (-k, -k), (k, 3), (5, -k)] {
+                    let q = c + Point::new(dx, dy);
+                    if k > d as i32 && sec.contains(q) {
+                        return Some(format!("FAIL class=far_probe_accepted {:?}", q));
+                    }
+                    n += 1;
+                }
+            }
+            format!("OK {}", n)
         }
         // p_entire <seed> <n>: |sweep| >= 360 degrees always yields EntirePlane (and the sector is the circle)
         "p_entire" => {
